@@ -283,14 +283,16 @@ mod enigma_line {
 }
 
 fn write_class(class_key: &ObjClassNameSlice, class: &ClassNowodeMapping<2>, w: &mut impl Write, indent: usize) -> Result<()> {
+	// only a class written inside its parent loses the `parent$` prefix, the reader re-attaches it only there
+	let nested = indent > 0;
 	let indent = "\t".repeat(indent);
 
 	let [_, dst] = class.info.names.names();
 	// get to only the part after $ if it exists
-	let src = class_key.get_inner_class_name().unwrap_or(class_key);
+	let src = class_key.get_inner_class_name().filter(|_| nested).unwrap_or(class_key);
 	// the dst name also stores only the inner class name
 	let dst = dst.as_ref()
-		.map(|dst| dst.get_inner_class_name().unwrap_or(dst));
+		.map(|dst| dst.get_inner_class_name().filter(|_| nested).unwrap_or(dst));
 
 	write!(w, "{indent}CLASS {src}")?;
 	if let Some(dst) = dst {
